@@ -137,9 +137,9 @@ theorem mismatch_invisible (s : State) (hs : s.cfg.skipVerify = false) (name : N
       have hv : ∀ d, view (released (reserved s size) size) d = view s d := fun d =>
         view_congr (s := s) (s' := released (reserved s size) size) rfl
           (by simp [released, reserved, release_entries, tryReserve_entries]) rfl d
-      rcases writeCacheFile_mismatch (crc := crc) (s := released (reserved s size) size) hs h2 true pl with h | h <;>
+      rcases writeDisk_mismatch (crc := crc) (s := released (reserved s size) size) hs h2 size pl with h | h <;>
         rw [h] <;> exact ⟨by simp, hv⟩
-    · rcases writeCacheFile_mismatch (crc := crc) hs h1 true pl with h | h <;> rw [h] <;> exact ⟨by simp, fun d => rfl⟩
+    · rcases writeDisk_mismatch (crc := crc) hs h1 size pl with h | h <;> rw [h] <;> exact ⟨by simp, fun d => rfl⟩
 
 /-- **C01 (3)** (the store is not vacuous) a direct cache write of content that does hash to a valid
 name succeeds and makes content readable under the name. -/
